@@ -32,6 +32,8 @@ import (
 	"strings"
 	"time"
 
+	"github.com/ohler55/ojg/asm"
+
 	"verif/harness/lib"
 )
 
@@ -107,6 +109,7 @@ func main() {
 		runReplay(d)
 		return
 	}
+	checkNames(d)
 	cases := buildCases()
 	const batch = 4000
 	for s := 0; s < len(cases); s += batch {
@@ -131,6 +134,44 @@ func main() {
 }
 
 var seenKnown = map[string]bool{}
+
+// checkNames: the harness's lists of modelled and unmodelled functions are the model's, and together
+// they are what asm.FnDocs() registers in the tree under test.
+func checkNames(d *lib.Driver) {
+	ans, err := d.Ask1("fns")
+	if err != nil {
+		fmt.Fprintln(os.Stderr, "driver:", err)
+		os.Exit(3)
+	}
+	parts := strings.Split(ans, ";")
+	var lean [2][]string
+	for i := 0; i < 2 && i < len(parts); i++ {
+		for _, h := range strings.Split(parts[i], ",") {
+			n, _ := unhexF(h)
+			lean[i] = append(lean[i], n)
+		}
+	}
+	mine := [2][]string{append([]string{}, modelled...), allFunctions()[len(modelled):]}
+	for i := 0; i < 2; i++ {
+		sort.Strings(lean[i])
+		sort.Strings(mine[i])
+		if strings.Join(lean[i], " ") != strings.Join(mine[i], " ") {
+			rep.Add(lib.Finding{Kind: "disagreement", Class: "names:lists", What: "the harness's function lists differ from the model's",
+				Replay: map[string]any{"model": lean[i], "harness": mine[i]}})
+		}
+	}
+	var reg []string
+	for n := range asm.FnDocs() {
+		reg = append(reg, n)
+	}
+	sort.Strings(reg)
+	all := append(append([]string{}, mine[0]...), mine[1]...)
+	sort.Strings(all)
+	if strings.Join(reg, " ") != strings.Join(all, " ") {
+		rep.Add(lib.Finding{Kind: "disagreement", Class: "names:registry", What: "asm.FnDocs() registers other names than the model knows",
+			Replay: map[string]any{"registered": reg, "model": all}})
+	}
+}
 
 // ---------------------------------------------------------------------------------------------
 // case streams
